@@ -28,27 +28,47 @@ func storedLog() (*hist, *ipfslog.IPFSLog) {
 	return h, h.logs[0]
 }
 
-// load runs one of the four loaders; length < 0 means "no limit".
-func load(h *hist, L *ipfslog.IPFSLog, loader int, length int, conc int, exclude iface.ExcludeFunc, timeoutNs int) (*ipfslog.IPFSLog, error) {
-	id := h.ids[0]
-	var lp *int
+// loadOpts: the option values a caller passes to the loaders; a caller may reuse them for several loads.
+type loadOpts struct {
+	lo     *ipfslog.LogOptions
+	fo     *ipfslog.FetchOptions
+	efo    *entry.FetchOptions
+	length *int
+}
+
+func newLoadOpts(h *hist, length int, conc int, exclude iface.ExcludeFunc, timeoutNs int) *loadOpts {
+	o := &loadOpts{}
 	if length >= 0 {
-		lp = &length
+		n := length
+		o.length = &n
 	}
-	lo := &ipfslog.LogOptions{ID: "X", IO: &atomIO{api: h.api}, SortFn: h.sortFn()}
+	o.lo = &ipfslog.LogOptions{ID: "X", IO: h.io(), SortFn: h.sortFn()}
+	o.fo = &ipfslog.FetchOptions{Length: o.length, Concurrency: conc, ShouldExclude: exclude, Timeout: timeDur(timeoutNs)}
+	o.efo = &entry.FetchOptions{Length: o.length, Concurrency: conc, Timeout: timeDur(timeoutNs)}
+	return o
+}
+
+// loadWith runs one of the four loaders with the given (possibly reused) options.
+func loadWith(h *hist, L *ipfslog.IPFSLog, loader int, o *loadOpts) (*ipfslog.IPFSLog, error) {
+	id := h.ids[0]
 	switch loader {
 	case ldManifest:
 		m, err := L.ToMultihash(ctx)
 		vx.Assert("C09", err == nil, "publishing the manifest of a non-empty log succeeds")
-		return ipfslog.NewFromMultihash(ctx, h.api, id, m, lo, &ipfslog.FetchOptions{Length: lp, Concurrency: conc, ShouldExclude: exclude, Timeout: timeDur(timeoutNs)})
+		return ipfslog.NewFromMultihash(ctx, h.api, id, m, o.lo, o.fo)
 	case ldJSON:
-		return ipfslog.NewFromJSON(ctx, h.api, id, L.ToJSONLog(), lo, &entry.FetchOptions{Length: lp, Concurrency: conc, Timeout: timeDur(timeoutNs)})
+		return ipfslog.NewFromJSON(ctx, h.api, id, L.ToJSONLog(), o.lo, o.efo)
 	case ldEntries:
-		return ipfslog.NewFromEntry(ctx, h.api, id, L.Heads().Slice(), lo, &entry.FetchOptions{Length: lp, Concurrency: conc, Timeout: timeDur(timeoutNs)})
+		return ipfslog.NewFromEntry(ctx, h.api, id, L.Heads().Slice(), o.lo, o.efo)
 	default:
 		hs := L.Heads().Slice()
-		return ipfslog.NewFromEntryHash(ctx, h.api, id, hs[0].GetHash(), lo, &ipfslog.FetchOptions{Length: lp, Concurrency: conc, ShouldExclude: exclude, Timeout: timeDur(timeoutNs)})
+		return ipfslog.NewFromEntryHash(ctx, h.api, id, hs[0].GetHash(), o.lo, o.fo)
 	}
+}
+
+// load runs one of the four loaders; length < 0 means "no limit".
+func load(h *hist, L *ipfslog.IPFSLog, loader int, length int, conc int, exclude iface.ExcludeFunc, timeoutNs int) (*ipfslog.IPFSLog, error) {
+	return loadWith(h, L, loader, newLoadOpts(h, length, conc, exclude, timeoutNs))
 }
 
 // H_C09: a log rebuilt without a length limit from its published heads equals the original,
@@ -66,13 +86,15 @@ func H_C09() {
 	wantHeads := hashSet(L.Heads().Slice())
 	wantVals := L.Values().Slice()
 	h.api.gated = true
+	opts := newLoadOpts(h, -1, conc, nil, 0)
 	vx.ExploreOn()
-	N, err := load(h, L, loader, -1, conc, nil, 0)
+	N, err := loadWith(h, L, loader, opts)
 	vx.ExploreOff()
 	vx.Assert("C09", err == nil && N != nil, "loading a fully stored log succeeds")
 	if err != nil || N == nil {
 		return
 	}
+
 	vx.Assert("C09", N.GetID() == L.GetID(), "the rebuilt log has the same id")
 	vx.Assert("C09", sameSet(hashSet(entriesOf(N)), hashSet(want)), "the rebuilt log has the same set of entries")
 	vx.Assert("C09", sameSet(hashSet(N.Heads().Slice()), wantHeads), "the rebuilt log has the same heads")
@@ -85,6 +107,29 @@ func H_C09() {
 	if len(want) > 2 {
 		vx.Cover("log-of-3+")
 	}
+	func() {
+		// the same option values reused for a later state of the log: the second reconstruction equals that state
+		if vx.Param("RELOAD2", 1) != 1 {
+			return
+		}
+		if _, aerr := L.Append(ctx, []byte("later"), nil); aerr != nil {
+			return
+		}
+		if loader == ldEntryHash && L.Heads().Len() != 1 {
+			return
+		}
+		h.api.reads = nil
+		N2, err2 := loadWith(h, L, loader, opts)
+		vx.Assert("C09", err2 == nil && N2 != nil, "loading the grown log with the same option values succeeds")
+		if err2 == nil && N2 != nil {
+			vx.Assert("C09", sameSet(hashSet(entriesOf(N2)), hashSet(entriesOf(L))) && sameSet(hashSet(N2.Heads().Slice()), hashSet(L.Heads().Slice())),
+				"a second reconstruction with reused option values equals the log's new state")
+			if h.strictTotal() {
+				vx.Assert("C09", sameSeq(N2.Values().Slice(), L.Values().Slice()), "a second reconstruction with reused option values has the same linearised values")
+			}
+			vx.Cover("reloaded-with-reused-options")
+		}
+	}()
 }
 
 func strSet(ks []string) map[string]bool {
@@ -140,9 +185,12 @@ func H_C10() {
 		want[hstr(sorted[i])] = true
 	}
 	h.api.gated = true
+	opts := newLoadOpts(h, n, conc, nil, 0)
 	vx.ExploreOn()
-	N, err := load(h, L, loader, n, conc, nil, 0)
+	N, err := loadWith(h, L, loader, opts)
 	vx.ExploreOff()
+	vx.Assert("C10", opts.length != nil && *opts.length == n, "a load does not change the limit the caller passed")
+
 	vx.Assert("C10", err == nil && N != nil, "a length-limited load of a fully stored log succeeds")
 	if err != nil || N == nil {
 		return
@@ -164,6 +212,23 @@ func H_C10() {
 	vx.Assert("C10", sameSet(hashSet(got), want), "the supplied entries plus the most recent others in the log's order are loaded")
 	vx.Observe("n", len(got))
 	vx.Cover("limited-" + loaderNames[loader])
+	func() {
+		// the same option values (same limit variable) reused for a load with fewer supplied entries
+		if vx.Param("RELOAD2", 1) != 1 || err != nil {
+			return
+		}
+		second := []int{ldManifest, ldManifest, ldJSON, ldJSON}[loader] // k = 0 loaders
+		N2, err2 := loadWith(h, L, second, opts)
+		if err2 != nil || N2 == nil {
+			return
+		}
+		w2 := n
+		if w2 > size {
+			w2 = size
+		}
+		vx.Assert("C10", N2.Len() == w2, "a later load with the same option values still returns exactly min(n,size) entries")
+		vx.Cover("limit-reused")
+	}()
 }
 
 var _ = register("H_C10", H_C10)
@@ -276,3 +341,38 @@ func H_C11() {
 }
 
 var _ = register("H_C11", H_C11)
+
+// H_C03_partial: a log loaded from a store in which one block is unretrievable (a reachable state: the
+// loaders skip what they cannot fetch) still linearises every entry it holds exactly once. Logs written
+// with skip references are included, so that entries below the hole are reached through references.
+func H_C03_partial() {
+	h, L := storedLog()
+	vx.Assume(L.Len() > 1)
+	all := L.Values().Slice()
+	victim := all[vx.Choice("victim", len(all))]
+	h.api.fault[hstr(victim)] = faultAbsent
+	loader := 1 + vx.Choice("loader", 3) // the loaders that infer the heads from the entries: json, entries, entry hash
+	vx.Sig("loader=" + loaderNames[loader])
+	if loader == ldEntryHash {
+		vx.Assume(L.Heads().Len() == 1)
+	}
+	N, err := load(h, L, loader, -1, 1+vx.Choice("conc", 2), nil, 0)
+	if err != nil || N == nil {
+		vx.Cover("partial-load-failed") // e.g. the only head is the missing block
+		return
+	}
+	es := entriesOf(N)
+	v := N.Values().Slice()
+	vx.Assert("C03", len(v) == len(es) && sameSet(hashSet(v), hashSet(es)) && len(hashSet(v)) == len(v),
+		"Values() contains each entry the log holds exactly once (log loaded with a missing block)")
+	vx.Assert("C02", sameSet(hashSet(N.Heads().Slice()), refHeads(es)), "heads are the unreferenced entries (log loaded with a missing block)")
+	if len(es) < len(all)-1 {
+		vx.Cover("entries-behind-the-hole-lost")
+	}
+	if len(es) == len(all)-1 && len(es) > 0 {
+		vx.Cover("hole-bridged-by-reference")
+	}
+	vx.Cover("partial-load")
+}
+
+var _ = register("H_C03_partial", H_C03_partial)
